@@ -171,14 +171,14 @@ def minify(
 
     if preserve_locals is None:
         preserve_locals = []
-    elif isinstance(preserve_locals, str):
+    elif isinstance(preserve_locals, (str, type(u''))):
         preserve_locals = [preserve_locals]
     else:
         # Names are added to these lists below, don't modify the caller's list
         preserve_locals = list(preserve_locals)
     if preserve_globals is None:
         preserve_globals = []
-    elif isinstance(preserve_globals, str):
+    elif isinstance(preserve_globals, (str, type(u''))):
         preserve_globals = [preserve_globals]
     else:
         preserve_globals = list(preserve_globals)
